@@ -445,7 +445,7 @@ def check(run):
     run.assume('32-bit wchar_t; 16-bit wchar_t twins are not lowered',
                'the convert loops are reached only through the public wrappers, which raise the returned error (C03 R03.3)')
     run.floor('UTF-8 classes x deciders', deciders(run, m, F, E), 40)
-    pairs = conv.discover(m, F)
+    pairs = conv.discover(m, F, run, 'R02.1')
     run.floor('converter x class x mode runs', policy(run, m, F, E, pairs), 150)
     run.floor('error codes', error_mapping(run, m, F, E), 6)
     run.floor('set(char_buffer) dispatch cases', set_dispatch(run, m, F, E), 6)
